@@ -77,4 +77,11 @@ StrokeSides ==
     \A t \in FbAsSet(fb) : (t[3] = st.stroke) =>
         /\ (st.al = 0 => InShape(<<t[1], t[2]>>))
         /\ (st.al = 2 => ~InShape(<<t[1], t[2]>>))
+\* C02 at the design level, in every state: painted points lie inside styled_bounding_box() =
+\* bounding_box().offset(outside stroke width) (ellipse/styled.rs:140, rounded_rectangle/styled.rs:146)
+StyledBox == Offset(ShapeBox, OutsideW(st))
+\* negative control (cfg: StyledBox <- BoxWithoutStroke): the stroke forgotten
+BoxWithoutStroke == ShapeBox
+InsideStyledBox == DOMAIN fb \subseteq PointsOf(StyledBox)
+TransparentPaintsNothing == IsTransparent(st) => fb = EmptyFb
 =============================================================================
